@@ -170,7 +170,13 @@ def ob_once(run, oid):
                     continue
                 for a in vs:
                     for v in a[1][1]:
-                        seen[v] = (fs, term, dbb)
+                        # a short-circuit `a || b` has one definition per operand: the arm's read set is the union over all of them
+                        prev = seen.get(v)
+                        if prev is not None:
+                            keep = prev[1] if (isinstance(term, tuple) and term and term[0] in ("const", "local")) else term
+                            seen[v] = (frozenset(prev[0]) | frozenset(fs), keep, dbb)
+                        else:
+                            seen[v] = (frozenset(fs), term, dbb)
         # NotarFallback: duplicate only for the SAME block (several blocks of one slot can be notar-fallback-certified)
         nf = seen.get("NotarFallback")
         if nf is not None:
@@ -205,6 +211,11 @@ def ob_once(run, oid):
             got = seen.get(v)
             o.check(got is not None and f in got[0], "Pool::add_cert|duplicate|%s" % v, "Cert::%s is a duplicate iff certificates.%s already holds one" % (v, f), c.span,
                     {"reads": sorted(got[0]) if got else None})
+            # "iff": a held certificate of ANOTHER type never makes a received one a duplicate (a notar-fallback certificate for block B is not
+            # subsumed by a notarization certificate of the same slot: it may be for another block, and the standstill bundle relies on it)
+            if got is not None and f in got[0]:
+                o.check(set(got[0]) == {f}, "Pool::add_cert|duplicate|%s|own-type-only" % v,
+                        "whether a received Cert::%s is a duplicate depends on certificates.%s alone" % (v, f), c.span, {"reads": sorted(got[0])})
 
 
 def ob_inputs(run, oid):
